@@ -837,7 +837,16 @@ def replay(ctx, data):
     tables, extra = levels.extract()
     case = inp["case"]
     status, world, picks = check_case(ctx, case, tables, extra)
-    print("implementation:", status, world if status != "ok" else P.dump_world(world, P.ValTable())[:1500])
+    if status == "ok":
+        vt = P.ValTable()
+        lines = P.model_lines(case, tables, vt, picks)
+        ml = core.LeanDriver("drv_propagate").run(lines)[-1]
+        il = P.dump_world(world, vt)
+        print("implementation:", il[:1500])
+        print("model         :", ml[:1500])
+        print("model == implementation:", il == ml)
+    else:
+        print("implementation:", status, world)
     for v in ctx.violations:
         print("oracle:", v["signature"], "-", v["what"])
     return 1 if ctx.violations else 0
